@@ -104,6 +104,51 @@ func c12Names(n influxql.Node, into map[string]bool) {
 	})
 }
 
+// c12CachingMapper: builds its maps once and returns the same map objects on every call
+type c12CachingMapper struct {
+	c12Mapper
+	f map[string]map[string]influxql.DataType
+	d map[string]map[string]struct{}
+}
+
+func newC12CachingMapper(sch c12Schema) *c12CachingMapper {
+	m := &c12CachingMapper{c12Mapper: c12Mapper{sch}, f: map[string]map[string]influxql.DataType{}, d: map[string]map[string]struct{}{}}
+	for name := range sch {
+		f, d, err := m.c12Mapper.FieldDimensions(&influxql.Measurement{Name: name})
+		if err == nil {
+			m.f[name], m.d[name] = f, d
+		}
+	}
+	return m
+}
+func (m *c12CachingMapper) FieldDimensions(mm *influxql.Measurement) (map[string]influxql.DataType, map[string]struct{}, error) {
+	if f, ok := m.f[mm.Name]; ok {
+		return f, m.d[mm.Name], nil
+	}
+	return m.c12Mapper.FieldDimensions(mm)
+}
+func (m *c12CachingMapper) snapshot() string {
+	var names []string
+	for n := range m.f {
+		names = append(names, n)
+	}
+	sort.Strings(names)
+	var b strings.Builder
+	for _, n := range names {
+		var fs, ds []string
+		for k, t := range m.f[n] {
+			fs = append(fs, k+":"+t.String())
+		}
+		for k := range m.d[n] {
+			ds = append(ds, k)
+		}
+		sort.Strings(fs)
+		sort.Strings(ds)
+		fmt.Fprintf(&b, "%s{%s|%s}", n, strings.Join(fs, ","), strings.Join(ds, ","))
+	}
+	return b.String()
+}
+
 func c12Rewrite(q *influxql.SelectStatement, sch c12Schema) (res *influxql.SelectStatement, err error, pn interface{}) {
 	defer func() { pn = recover() }()
 	res, err = q.RewriteFields(&c12Mapper{sch})
@@ -419,6 +464,32 @@ func c12One(o *out, text string, sch c12Schema, tag string) {
 			}
 			o.fail("", fmt.Sprintf("RewriteFields on %q is not deterministic: %s versus %s", text, a, b), rp)
 			break
+		}
+	}
+	// a mapper that hands out the SAME maps on every call (a schema cache): the result is the same and the maps, which
+	// belong to the mapper, come back unchanged - twice, so that a change made by the first call would show in the second
+	{
+		cm := newC12CachingMapper(sch)
+		snap := cm.snapshot()
+		for i := 0; i < 2; i++ {
+			var res3 *influxql.SelectStatement
+			var err3 error
+			pn3 := safely(func() { res3, err3 = q.RewriteFields(cm) })
+			o.checked()
+			r3 := "(1)"
+			if pn3 != nil {
+				r3 = "(2)"
+			} else if err3 == nil {
+				r3 = "(0 " + selectSexp(res3) + ")"
+			}
+			if r3 != resp {
+				o.fail("", fmt.Sprintf("RewriteFields on %q with a mapper that reuses its maps (call %d) differs from the result with fresh maps", text, i+1), rp)
+				break
+			}
+			if now := cm.snapshot(); now != snap {
+				o.fail("", fmt.Sprintf("RewriteFields on %q changed the maps the FieldMapper returned: %s -> %s", text, snap, now), rp)
+				break
+			}
 		}
 	}
 	// correspondence with the model: regex matches on every name in play come from Go's engine
